@@ -3,6 +3,7 @@ package props
 import (
 	"go/token"
 	"go/types"
+	"sort"
 
 	"golang.org/x/tools/go/ssa"
 
@@ -237,6 +238,15 @@ func ruleNoLeak(c *Ctx, p *core.Program, r *doRoles) {
 	if hs != nil {
 		fns = append(fns, hs.AnonFuncs...)
 	}
+	// plus the library functions they call statically (a goroutine body may be a method)
+	for _, g := range append([]*ssa.Function{}, fns...) {
+		for f := range core.StaticReach(g, 2) {
+			if pkgOf(f) != nil && pkgOf(f).Path() == core.PkgCh {
+				fns = append(fns, f)
+			}
+		}
+	}
+	sort.Slice(fns, func(i, j int) bool { return fns[i].Pos() < fns[j].Pos() })
 	seen := map[*ssa.Function]bool{}
 	n := 0
 	for _, fn := range fns {
@@ -331,7 +341,14 @@ func ruleHandshakeWatchdog(c *Ctx, p *core.Program) {
 		return
 	}
 	var dog *ssa.Function
-	for _, a := range hs.AnonFuncs {
+	var cands []*ssa.Function
+	for f := range core.StaticReach(hs, 3) {
+		if f != hs && pkgOf(f) != nil && pkgOf(f).Path() == core.PkgCh {
+			cands = append(cands, f)
+		}
+	}
+	sort.Slice(cands, func(i, j int) bool { return cands[i].Pos() < cands[j].Pos() })
+	for _, a := range cands {
 		for _, b := range a.Blocks {
 			for _, in := range b.Instrs {
 				if s, ok := in.(*ssa.Select); ok && s.Blocking {
@@ -381,6 +398,40 @@ func ruleHandshakeWatchdog(c *Ctx, p *core.Program) {
 					}
 				}
 			}
+			// watchdog as a method: its own context parameter, fed with handshake's ctx at the call site
+			if pr, ok := cv.(*ssa.Parameter); ok && dog.Parent() == nil {
+				idx := -1
+				for i, q := range dog.Params {
+					if q == pr {
+						idx = i
+					}
+				}
+				for f := range core.StaticReach(hs, 3) {
+					for _, call := range core.Calls(f) {
+						if core.StaticFn(call) != dog || idx >= len(call.Common().Args) {
+							continue
+						}
+						a := call.Common().Args[idx]
+						if ap, ok := a.(*ssa.Parameter); ok && ap.Name() == "ctx" && ap.Parent() == hs {
+							parentCase = true
+						}
+						if u, ok := a.(*ssa.UnOp); ok {
+							if fv, ok := u.X.(*ssa.FreeVar); ok && f.Parent() == hs {
+								if b := freeVarBinding(hs, f, fv.Name()); b != nil && isParamCell(hs, b, "ctx") {
+									parentCase = true
+								}
+							}
+						}
+						if fv, ok := a.(*ssa.FreeVar); ok && f.Parent() == hs {
+							if b := freeVarBinding(hs, f, fv.Name()); b != nil {
+								if bp, ok := b.(*ssa.Parameter); ok && bp.Name() == "ctx" {
+									parentCase = true
+								}
+							}
+						}
+					}
+				}
+			}
 		}
 	}
 	if closes && parentCase {
@@ -427,18 +478,22 @@ func isParamCell(fn *ssa.Function, cell ssa.Value, name string) bool {
 // C10.deadline: packet() applies the context deadline also when no read timeout is configured.
 func rulePacketDeadline(c *Ctx, p *core.Program) {
 	rule := "C10.deadline"
-	c.R.Rule(rule, "in packet(), the context's deadline is selected as read deadline not only when it is earlier than the read-timeout deadline but also when no read timeout is configured: the block that takes the context deadline stays reachable when the true edge of Time.Before is removed, and SetReadDeadline is applied whenever the chosen deadline is non-zero")
+	c.R.Rule(rule, "in packet() (or the helper it uses), the context's deadline is selected as read deadline not only when it is earlier than the read-timeout deadline but also when no read timeout is configured: the point that takes the context deadline (a phi edge or a return of it) stays reachable when the true edge of Time.Before is removed; the selected value reaches SetReadDeadline")
 	cfg := p.Cfg.Name
 	pk := p.Method(core.PkgCh, "Client", "packet")
 	if !c.must(p, "(*ch.Client).packet", pk != nil) {
 		return
 	}
-	// the ctx.Deadline() call
+	// the function (packet or a static helper) that asks the context for its deadline
+	var df *ssa.Function
 	var dl *ssa.Call
-	for _, call := range core.Calls(pk) {
-		cc := call.Common()
-		if cc.IsInvoke() && cc.Method.Name() == "Deadline" && core.IsNamed(cc.Value.Type(), "context", "Context") {
-			dl, _ = call.(*ssa.Call)
+	for fn := range core.StaticReach(pk, 2) {
+		for _, call := range core.Calls(fn) {
+			cc := call.Common()
+			if cc.IsInvoke() && cc.Method.Name() == "Deadline" && core.IsNamed(cc.Value.Type(), "context", "Context") {
+				df = fn
+				dl, _ = call.(*ssa.Call)
+			}
 		}
 	}
 	if dl == nil {
@@ -451,51 +506,58 @@ func rulePacketDeadline(c *Ctx, p *core.Program) {
 			dval = e
 		}
 	}
-	// the deadline handed to SetReadDeadline must depend on dval
-	var set ssa.CallInstruction
-	for _, call := range core.Calls(pk) {
-		cc := call.Common()
-		if _, isDefer := call.(*ssa.Defer); isDefer {
-			continue
-		}
-		if cc.IsInvoke() && cc.Method.Name() == "SetReadDeadline" && call.Parent() == pk {
-			set = call
-		}
-	}
-	if set == nil || dval == nil {
+	// SetReadDeadline is reachable from packet
+	if !core.ReachesCallee(pk, func(f *types.Func) bool { return f.Name() == "SetReadDeadline" }, 2) || dval == nil {
 		c.R.Bad(rule, core.FuncName(pk), cfg, p.Pos(dl.Pos()), "no SetReadDeadline fed from the context deadline")
 		return
 	}
-	arg := set.Common().Args[0]
-	if !core.DependsOn(arg, func(v ssa.Value) bool { return v == dval }, false) {
-		c.R.Bad(rule, core.FuncName(pk), cfg, p.Pos(set.Pos()), "the read deadline never takes the context deadline")
-		return
-	}
-	// phi edge selecting dval: find the phi and the predecessor block contributing dval
-	ph, ok := arg.(*ssa.Phi)
-	if !ok {
-		c.R.Unk(rule, core.FuncName(pk), cfg, p.Pos(set.Pos()), "deadline selection is not a phi of the two candidates")
-		return
-	}
-	before := core.CondEdges(pk, true, func(cond ssa.Value) (bool, bool) {
+	before := core.CondEdges(df, true, func(cond ssa.Value) (bool, bool) {
 		_, ok := core.CallTo(cond, func(f *types.Func) bool { return core.IsMethod(f, "time", "Time", "Before") })
 		return true, ok
 	})
-	reach := false
-	for i, e := range ph.Edges {
-		if e != dval {
-			continue
+	// selection points of dval: phi edges carrying it, returns of it, stores of it to a cell
+	reach, nSel := false, 0
+	for _, b := range df.Blocks {
+		for _, in := range b.Instrs {
+			switch x := in.(type) {
+			case *ssa.Phi:
+				for i, e := range x.Edges {
+					if e != dval {
+						continue
+					}
+					nSel++
+					pred := b.Preds[i]
+					if !core.OnlyViaEdges(df, pred.Instrs[len(pred.Instrs)-1], before) {
+						reach = true
+					}
+				}
+			case *ssa.Return:
+				for _, r := range x.Results {
+					if core.ResolveCellLoad(r, x) == dval {
+						nSel++
+						if !core.OnlyViaEdges(df, x, before) {
+							reach = true
+						}
+					}
+				}
+			case *ssa.Store:
+				if x.Val == dval {
+					if _, isAlloc := x.Addr.(*ssa.Alloc); isAlloc {
+						nSel++
+						if !core.OnlyViaEdges(df, x, before) {
+							reach = true
+						}
+					}
+				}
+			}
 		}
-		pred := ph.Block().Preds[i]
-		last := pred.Instrs[len(pred.Instrs)-1]
-		if core.OnlyViaEdges(pk, last, before) {
-			continue
-		}
-		reach = true
 	}
-	if !reach {
-		c.R.Bad(rule, core.FuncName(pk), cfg, p.Pos(set.Pos()), "the context deadline is taken only when it is Before the read-timeout deadline: with ReadTimeout disabled (zero deadline) a context deadline is never applied and the read blocks forever")
-		return
+	switch {
+	case nSel == 0:
+		c.R.Bad(rule, core.FuncName(df), cfg, p.Pos(dl.Pos()), "the context deadline is never selected as the read deadline")
+	case !reach:
+		c.R.Bad(rule, core.FuncName(df), cfg, p.Pos(dl.Pos()), "the context deadline is taken only when it is Before the read-timeout deadline: with ReadTimeout disabled (zero deadline) a context deadline is never applied and the read blocks forever")
+	default:
+		c.R.Ok(rule, core.FuncName(df), cfg, p.Pos(dl.Pos()), "context deadline selected on the Before edge and on the no-timeout edge")
 	}
-	c.R.Ok(rule, core.FuncName(pk), cfg, p.Pos(set.Pos()), "context deadline selected on the Before edge and on the no-timeout edge")
 }
